@@ -176,7 +176,15 @@ class Gen:
                 rs.append(items)
             runs[grp] = (pool, rs)
         for f in files:
-            self.fill_file(f, runs["py" if f["lang"] == "py" else "tsjs"])
+            grp = "py" if f["lang"] == "py" else "tsjs"
+            if fam == "mix" and f["lang"] == "js" and r.random() < 0.6:
+                # cross-language duplicates: semicolon-free JavaScript shares the Python statement text
+                # (`a // n` would be a comment in JavaScript: those statements stay Python-only)
+                pool, rs = runs["py"]
+                ok = lambda it: all(" // " not in code for _, code in it)   # noqa: E731
+                self.fill_file(f, ([c for c in pool if " // " not in c] or ["pass_(a)"], [[it for it in run if ok(it)] or [[(0, "pass_(a)")]] for run in rs]))
+                continue
+            self.fill_file(f, runs[grp])
         # keep projects small enough for the in-kernel evaluation (quadratic in the number of windows)
         while len(files) > 1 and sum(len(f["lines"]) for f in files) > 200:
             files.pop(r.randrange(len(files)))
@@ -376,9 +384,53 @@ class Gen:
                     out.append(["C", "", f"}} from './{w2}';", None])
 
 
+TH = " thailint: "
+DIRECTIVES_PY = [" dry: ignore-block", " dry: ignore-next", TH + "ignore-file dry", TH + "ignore-file[dry]", TH + "ignore dry", TH + "ignore[dry]",
+                 TH + "ignore-next-line[dry]", TH + "ignore-start dry", TH + "ignore-end"]
+
+
+def add_suppressions(r, proj: dict) -> None:
+    """sprinkle suppression directives (fixed spellings) and a dry.ignore path pattern over a generated project"""
+    files = proj["files"]
+    if r.random() < 0.35:
+        f = r.choice(files)
+        name = f["name"]
+        proj["ignore"] = [r.choice([name.rsplit("/", 1)[-1], name.split("/")[0] + "/" if "/" in name else name[:4], "." + f["lang"], "nomatch/"])]
+    for f in files:
+        if r.random() < 0.5:
+            continue
+        lines = f["lines"]
+        for _ in range(r.randint(1, 3)):
+            d = r.choice(DIRECTIVES_PY)
+            kind = d.strip()
+            if kind.startswith("thailint: ignore dry") or kind.startswith("thailint: ignore[dry]") or (r.random() < 0.15 and "start" not in kind and "end" not in kind):
+                # trailing comment on a code line
+                idx = [i for i, l in enumerate(lines) if l[0] == "C" and l[2] and l[3] is None]
+                if idx:
+                    lines[r.choice(idx)][3] = ["L", d]
+                continue
+            if "ignore-file" in kind:
+                pos = r.choice([0, 0, 1, 2, 9, 10, 11])
+            else:
+                pos = r.randint(0, len(lines))
+            pos = min(pos, len(lines))
+            while pos < len(lines) and lines[pos][0] == "D":
+                pos += 1
+            indent = lines[pos][1] if pos < len(lines) else ""
+            lines.insert(pos, ["C", indent, "", ["L", d]])
+            if "ignore-start" in kind and r.random() < 0.7:
+                q = min(len(lines), pos + r.randint(2, 12))
+                while q < len(lines) and lines[q][0] == "D":
+                    q += 1
+                lines.insert(q, ["C", lines[q][1] if q < len(lines) else "", "", ["L", TH + "ignore-end"]])
+
+
 def gen_project(r, stream: str) -> dict:
     W = r.choice([2, 2, 3, 3, 3, 4, 4, 5, 6])
     k = r.choice([2, 2, 2, 2, 3, 3, 4])
     fam = r.choice(["py", "py", "ts", "ts", "mix"])
     dense = stream == "ord" and r.random() < 0.15
-    return Gen(r, "py" if dense else fam, stream, W, dense).project(k)
+    proj = Gen(r, "py" if dense else fam, stream, W, dense).project(k)
+    if not dense and r.random() < 0.3:
+        add_suppressions(r, proj)
+    return proj
